@@ -1,4 +1,5 @@
 import RoaringModel.Lemmas.TreemapIterAdvance
+import RoaringModel.Lemmas.TreemapIntoIter
 import RoaringModel.SpecCursor64
 /-!
 # C12 — 64-bit iteration is an exact ascending double-ended cursor (property theorems)
@@ -87,6 +88,19 @@ theorem C12_history_partial (t : Treemap) (hw : WFd S.WF t) (ops : List ItOp) (h
     simp only [runM, runS]
     rw [← h2, ← h3]
     exact ⟨i1, i2, by rw [i3]⟩
+
+/-- `into_iter()` starts on all values; `next` / `next_back` pop the smallest / largest remaining value and
+    the decremented size counter stays exact, so `size_hint()` is exact in both components. -/
+theorem C12_intoIter_partial (t : Treemap) (hw : WFd S.WF t) :
+    (IntoIter.new (K := K) t).Inv S ∧ (IntoIter.new (K := K) t).rem S = elems t ∧
+    (∀ it : IntoIter K, it.Inv S →
+      (it.next.1.Inv S ∧ it.next.1.rem S = (Spec.Cursor64.next (it.rem S)).1 ∧ it.next.2 = (Spec.Cursor64.next (it.rem S)).2) ∧
+      (it.nextBack.1.Inv S ∧ it.nextBack.1.rem S = (Spec.Cursor64.nextBack (it.rem S)).1 ∧
+        it.nextBack.2 = (Spec.Cursor64.nextBack (it.rem S)).2) ∧
+      ((it.rem S).length < usizeMax →
+        it.sizeHintPair = (Spec.Cursor64.sizeHint (it.rem S), some (Spec.Cursor64.sizeHint (it.rem S))))) :=
+  ⟨(IntoIter.new_spec S hw).1, (IntoIter.new_spec S hw).2, fun it h =>
+    ⟨IntoIter.next_spec S it h, IntoIter.nextBack_spec S it h, IntoIter.sizeHint_spec S it h⟩⟩
 
 /-- `bitmaps()` yields the partitions in key order from the front and in reverse from the back. -/
 theorem C12_bitmaps (t : Treemap) :
